@@ -385,9 +385,11 @@ class Sys(object):
             arch = self.wrapper.__cache__().archive
             arch.refused = (expected_result(cfg, self.bindings[1]),)
         init = cfg.get('init', 'empty')
-        if init == 'seeded_archive':
+        if init in ('seeded_archive', 'seeded_archive_partial'):
             arch = self.wrapper.__cache__().archive
             for s, b in enumerate(self.bindings):
+                if init == 'seeded_archive_partial' and s == len(self.bindings) - 1:
+                    continue        # (the last call of the table is new to the archive)
                 arch[self.kmap[s]] = expected_result(cfg, b)
         elif init == 'seeded_cache':
             c = self.wrapper.__cache__()
